@@ -85,6 +85,10 @@ func ruleUniqueNames(c *eng.Ctx) {
 				}
 				if c.Check(eng.LoadsField(st.Val, nameF), rule, "traverseTree:last-name=node.Name", st.Pos(), "the remembered name is assigned node.Name") {
 					updates = append(updates, st)
+					// … and only the name of an *accepted* node is remembered: a rejected node in
+					// between must not make the next one comparable with itself instead of with
+					// the last node that was restored
+					c.MustPass(rule, "traverseTree:last-name-only-from-accepted-nodes", eng.Entry(fn), st, eng.NewCut().AddEdges(ordered...), "node.Name > name of the last accepted node")
 				}
 			}
 		}
